@@ -638,6 +638,15 @@ func (tr *tracer) hook(ev string, who any, key string, m any, flag bool) {
 		case "signal":
 			tr.lines = append(tr.lines, fmt.Sprintf("gev sig %d", g))
 		}
+		// for the replay against the program model (Model/GateProg.lean): the connection's transaction state and
+		// queue length at the hook sites of the Serve closure and of EXEC's loop (read on the connection's own
+		// goroutine, which is the only one that writes them)
+		if c, isConn := who.(*redis.Conn); isConn {
+			site := map[string]string{"gate-in": "in", "gate-out": "out", "gate-serve": "serve", "exec-run": "run"}[ev]
+			if site != "" {
+				tr.lines = append(tr.lines, fmt.Sprintf("gpc %d %s %d %d", g, site, c.State, len(c.Commands)))
+			}
+		}
 		return
 	}
 	if strings.HasPrefix(ev, "bp-") {
